@@ -222,11 +222,11 @@ def gen_case(rnd):
 
 class EndToEnd(EnumContract):
     name = "e2e:Cube(response tabulated from respondents) vs first principles"
-    props = ("C01", "C02", "C03", "C04", "C05", "C06", "C09", "C10", "C11", "C12", "C16")
+    props = ("C01", "C02", "C03", "C04", "C05", "C06", "C09", "C10", "C11", "C12", "C16", "C17")
     bound = "2-D and 3-D responses over CAT / CAT_DATE / MR dimensions, <= 4 categories (missing ones anywhere) or <= 3 items, <= 25 respondents with fractional weights, random subtotals / differences / hide / prune / explicit order; seeded sample"
     clauses = (
         "counts", "unweighted-counts", "row-bases", "column-bases", "table-bases", "proportions",
-        "margins", "pruning", "column-index", "zscores", "std-err", "partition-restriction", "transposition",
+        "margins", "pruning", "column-index", "zscores", "std-err", "population", "partition-restriction", "transposition",
         "transform-invariance", "subtotal-merge", "shape-and-labels",
     )
 
@@ -304,6 +304,23 @@ class EndToEnd(EnumContract):
                             bad.add("std-err")
             except Exception:
                 bad.add("std-err")
+            # C17: population estimate = proportion (within each date for a categorical-date
+            # dimension, rows first; else table proportion) x population x filtered fraction
+            try:
+                with np.errstate(all="ignore"):
+                    if rd["kind"] == "CAT_DATE":
+                        pp, sb = cnt / np.array(ow["row_bases"]), np.array(ow["row_bases"])
+                    elif cd["kind"] == "CAT_DATE":
+                        pp, sb = cnt / np.array(ow["col_bases"]), np.array(ow["col_bases"])
+                    else:
+                        pp, sb = cnt / np.array(ow["table_bases"]), np.array(ow["table_bases"])
+                    frac = 1.0 if math.fsum(r["w"] for r in rs) != 0 else float("nan")
+                    if not close(p.population_counts, pp * 1000 * frac, 1e-7):
+                        bad.add("population")
+                    if not close(p.population_counts_moe, 1.959964 * 1000 * frac * np.sqrt(pp * (1 - pp) / sb), 1e-7):
+                        bad.add("population")
+            except Exception:
+                bad.add("population")
             # margins: collapsed per-cell bases (1-D when the opposing dimension is CAT)
             rb, cb, tb = np.array(ow["row_bases"]), np.array(ow["col_bases"]), np.array(ow["table_bases"])
             exp_rm = rb[:, 0] if cd["kind"] != "MR" else rb
